@@ -51,6 +51,10 @@ type ClockCase struct {
 	// the context dies during it)
 	Nested bool `json:"nested,omitempty"`
 	OldCtx string `json:"old_ctx,omitempty"` // background | cancelled | deadline-past | long-deadline
+	// Build says how the host assembled the runtime: "" = lisp.NewEnv (the
+	// standard runtime); "literal" = a Runtime composite literal handed to
+	// NewEnvRuntime, field by field, as elpstest's runner does
+	Build string `json:"build,omitempty"`
 }
 
 type clockEngine struct {
@@ -204,6 +208,15 @@ func (e *clockEngine) Gen(r *Rand, tier string) any {
 		c.DeadlineNs = pickT()
 		c.CancelNs = pickT()
 	}
+	if r.Chance(1, 5) {
+		c.Build = "literal"
+	}
+	hostBinding := c.Via == "" && r.Chance(1, 6)
+	if hostBinding {
+		// the sleeps go through an embedder's own one-formal binding of
+		// libtime.BuiltinSleep (no :max can be passed through it)
+		c.Via = "host-binding"
+	}
 	st := &sleepState{kind: c.CtxKind, D: c.DeadlineNs, T: c.CancelNs, ceiling: c.CeilingNs}
 	n := r.Range(1, 4)
 	for i := 0; i < n; i++ {
@@ -212,7 +225,11 @@ func (e *clockEngine) Gen(r *Rand, tier string) any {
 		if ceiling < 0 {
 			ceiling = 0
 		}
-		switch r.Pick([]int{6, 3, 1}) {
+		kindW := []int{6, 3, 1}
+		if hostBinding {
+			kindW = []int{1, 0, 0}
+		}
+		switch r.Pick(kindW) {
 		case 1:
 			call.HasMax = true
 			opts := []int64{1, int64(time.Second), hourNs, hourNs + 1, 5 * hourNs, 24 * 365 * 100 * hourNs, 0, -1}
@@ -307,6 +324,9 @@ func clockProgram(c *ClockCase) string {
 		if c.Via == "fn-other-ctx" {
 			sleepFn = "nap"
 		}
+		if c.Via == "host-binding" && !s.HasMax && s.MaxBad == "" {
+			sleepFn = "sim:nap"
+		}
 		call := "(" + sleepFn + " " + durLit(s.DNs)
 		if s.MaxBad != "" {
 			call += " :max 5"
@@ -368,7 +388,7 @@ func (e *clockEngine) Run(ci any, st *Stats) *Violation {
 }
 
 func (e *clockEngine) runInBubble(c *ClockCase, st *Stats) *Violation {
-	k := Knobs{TimeLib: true, TRO: c.TRO, MaxSleepN: c.CeilingNs}
+	k := Knobs{TimeLib: true, TRO: c.TRO, MaxSleepN: c.CeilingNs, HandBuilt: c.Build == "literal"}
 	switch c.CeilingHow {
 	case "field":
 		k.MaxSleepN = 0
